@@ -9,6 +9,7 @@ import (
 	"sort"
 	"strconv"
 	"strings"
+	"sync"
 	"time"
 
 	"github.com/influxdata/influxdb"
@@ -643,11 +644,45 @@ func (e *StatementExecutor) createIterators(ctx context.Context, stmt *influxql.
 	}
 
 	// Create a set of iterators from a selection.
-	cur, err := query.Select(ctx, stmt, e.ShardMapper, sopt)
+	mapper := &checkedShardMapper{ShardMapper: e.ShardMapper}
+	cur, err := query.Select(ctx, stmt, mapper, sopt)
 	if err != nil {
 		return nil, err
 	}
+	if err := mapper.err(); err != nil {
+		cur.Close()
+		return nil, err
+	}
 	return cur, nil
+}
+
+// checkedShardMapper remembers the shard mappings handed out for a statement so that an
+// error met while looking up field types on remote nodes can be reported.
+type checkedShardMapper struct {
+	query.ShardMapper
+	mu       sync.Mutex
+	mappings []interface{ Err() error }
+}
+
+func (m *checkedShardMapper) MapShards(sources influxql.Sources, t influxql.TimeRange, opt query.SelectOptions) (query.ShardGroup, error) {
+	sg, err := m.ShardMapper.MapShards(sources, t, opt)
+	if c, ok := sg.(interface{ Err() error }); ok && err == nil {
+		m.mu.Lock()
+		m.mappings = append(m.mappings, c)
+		m.mu.Unlock()
+	}
+	return sg, err
+}
+
+func (m *checkedShardMapper) err() error {
+	m.mu.Lock()
+	defer m.mu.Unlock()
+	for _, c := range m.mappings {
+		if err := c.Err(); err != nil {
+			return err
+		}
+	}
+	return nil
 }
 
 func (e *StatementExecutor) executeShowContinuousQueriesStatement(ctx *query.ExecutionContext, stmt *influxql.ShowContinuousQueriesStatement) (models.Rows, error) {
